@@ -46,3 +46,12 @@ Fixpoint list_set_nat {A} (l : list A) (i : nat) (v : A) : list A :=
 Definition list_set {A} (l : list A) (i : N) (v : A) : list A := list_set_nat l (N.to_nat i) v.
 (* for i := lo; i < hi; i++ *)
 Definition go_range (lo hi : N) : list N := map N.of_nat (seq (N.to_nat lo) (N.to_nat hi - N.to_nat lo)).
+
+(* error values by class, and the outcome of a database lookup (a row, no row = db.ErrNotFound, any other failure) *)
+Inductive gerr := EOK | ENotFound | EFail.
+Definition err_eqb (a b : gerr) : bool :=
+  match a, b with EOK, EOK | ENotFound, ENotFound | EFail, EFail => true | _, _ => false end.
+Inductive lookup (A : Type) := LFound (a : A) | LNotFound | LFail.
+Arguments LFound {A}. Arguments LNotFound {A}. Arguments LFail {A}.
+(* for i := hi; i >= 0; i-- *)
+Definition go_range_down (hi : N) : list N := rev (go_range 0 (hi + 1)).
